@@ -40,7 +40,7 @@ NoResid == [ss |-> "none", class |-> "none", via |-> "none", src |-> "none"]
 (* prev = resid before the last call: kept in the view when that call was a transformation (the observer of a leak) *)
 (* and ran one of the state-heavy stylesheets S1..S6, SD1, SD2 on a well-formed source                                        *)
 Observer(c) == /\ c.op = "Transform"
-               /\ DocOf(c.ss, liveSS) \in {"S1", "S2", "S3", "S4", "S5", "S6", "S7", "SD1", "SD2"}
+               /\ DocOf(c.ss, liveSS) \in {"S1", "S2", "S3", "S4", "S5", "S6", "S7", "S8", "SD1", "SD2"}
                /\ DocOf(c.src, liveSrc) # "DX"
 View == <<params, fns, liveSS, nSS, liveSrc, nSrc, lastError, m, resid,
           IF Observer(LastCall) THEN prev ELSE NoResid, LastCall>>
